@@ -60,6 +60,13 @@ func (i *IFunc) Type() types.Type {
 		if !ok {
 			panic(fmt.Errorf("invalid resolver type of %q; expected *types.PointerType, got %T", i.Ident(), i.Resolver.Type()))
 		}
+		// The type of an IFunc is the type returned by its resolver (a pointer to
+		// the resolved function), not the type of the resolver itself.
+		if sig, ok := typ.ElemType.(*types.FuncType); ok {
+			if retType, ok := sig.RetType.(*types.PointerType); ok {
+				typ = retType
+			}
+		}
 		i.Typ = typ
 	}
 	return i.Typ
